@@ -317,7 +317,23 @@ func (g *PG) typed(ty string, d int) *Expr {
 		case 3:
 			return bin("+", sub("str"), sub("nil"))
 		default:
-			return bin("*", sub("str"), &Expr{K: "int", T: IntSpelling(g.T, Int(g.T, 0, 3, "rep"))})
+			// repetition: the count mostly a small literal, sometimes negative
+			// (a runtime error, also for the empty string), computed or a name
+			left := sub("str")
+			if Chance(g.T, 15, "emptyleft") {
+				left = Pick(g.T, "emptyform", []*Expr{{K: "str", T: `""`}, {K: "bin", T: "*", A: &Expr{K: "str", T: `"x"`}, B: &Expr{K: "int", T: "0"}}})
+			}
+			lit := func(lo, hi int) *Expr { return &Expr{K: "int", T: IntSpelling(g.T, Int(g.T, lo, hi, "rep"))} }
+			switch Weighted(g.T, "repform", 65, 10, 10, 15) {
+			case 0:
+				return bin("*", left, lit(0, 3))
+			case 1:
+				return bin("*", left, &Expr{K: "neg", A: lit(0, 3)})
+			case 2:
+				return bin("*", left, &Expr{K: "par", A: bin("-", lit(0, 3), lit(0, 3))})
+			default:
+				return bin("*", left, g.leaf("int"))
+			}
 		}
 	case "bool":
 		if !g.C.NoFloat && Chance(g.T, 4, "bigeq") {
